@@ -175,3 +175,40 @@ async fn replay_f_c23a_successful_cas_cancels_the_earlier_ttl_file_engine() {
         "put(k, ttl=3600) then a successful CAS on k (no TTL): k still carries the first put's expiry {left:?}"
     );
 }
+
+// ---------------------------------------------------------------------------------------------
+// F-C13b  the embedded client's read handle answers a client-requested eventual read from local state
+//         even when the server disallows client overrides and its default policy is linearizable:
+//         EmbeddedReadHandle is built from (state machine, lease, cmd_tx) only - exactly as EmbeddedEngine does -
+//         so no read_consistency setting can reach this path
+// ---------------------------------------------------------------------------------------------
+#[tokio::test]
+async fn replay_f_c13b_embedded_eventual_read_is_served_under_the_servers_policy_when_overrides_are_disabled() {
+    use bytes::Bytes;
+    use d_engine_core::config::ReadConsistencyPolicy;
+    // the server's configuration: every read is to be served as a linearizable read
+    let mut cfg = RaftNodeConfig::default();
+    cfg.raft.read_consistency.allow_client_override = false;
+    cfg.raft.read_consistency.default_policy = ReadConsistencyPolicy::LinearizableRead;
+
+    let mut sm = MockStateMachine::new();
+    sm.expect_get_multi().returning(|keys| Ok(keys.iter().map(|_| Some(Bytes::from_static(b"local"))).collect()));
+    let (cmd_tx, mut cmd_rx) = tokio::sync::mpsc::channel(4);
+    // as in EmbeddedEngine::client(): EmbeddedReadHandle::new(sm, node.read_lease(), node.cmd_tx.clone())
+    let handle = crate::api::EmbeddedReadHandle::<d_engine_core::MockTypeConfig>::new(
+        Arc::new(sm),
+        Arc::new(d_engine_core::ReadLease::new()),
+        cmd_tx,
+    );
+    let answer = handle
+        .get_batch(&[Bytes::from_static(b"k")], ReadConsistencyPolicy::EventualConsistency, 1, std::time::Duration::from_millis(50))
+        .await;
+    // under the server's policy the read has to reach the Raft loop (which resolves the policy: determine_read_policy)
+    let reached_raft_loop = cmd_rx.try_recv().is_ok();
+    assert!(
+        reached_raft_loop,
+        "allow_client_override={} default={:?}: the eventual read was answered from local state ({answer:?}) without entering the Raft loop",
+        cfg.raft.read_consistency.allow_client_override,
+        cfg.raft.read_consistency.default_policy
+    );
+}
